@@ -97,6 +97,18 @@ Bin(t, a, b, to) ==       \* a is the deeper operand
   /\ dg' = Append(SubSeq(dg, 1, Len(dg) - 2), BinDeg(t, DTop(2), DTop(1)))
   /\ UNCHANGED <<hasv, hasu, done>>
 
+(* non-square matrices: the input field B of shape (Dim+1) x Dim ("Tl" tall), its transpose ("Wd" wide), and the
+   products that bring them back to square matrices ("M": Dim x Dim, "Q": (Dim+1) x (Dim+1)) or scalars *)
+Rect ==
+  /\ Rich
+  /\ \/ Push("B", "Tl")
+     \/ Un("T", "Tl", "Wd") \/ Un("T", "Wd", "Tl")
+     \/ Bin("matmat", "Wd", "Tl", "M") \/ Bin("matmat", "Tl", "Wd", "Q")
+     \/ Bin("matmat", "M", "Wd", "Wd") \/ Bin("matmat", "Tl", "M", "Tl")
+     \/ Un("tr", "Q", "S") \/ Un("m01", "Q", "S") \/ Un("m01", "Wd", "S") \/ Un("m01", "Tl", "S")
+     \/ Bin("minner", "Tl", "Tl", "S") \/ Bin("minner", "Wd", "Wd", "S") \/ Bin("m+", "Tl", "Tl", "Tl")
+     \/ Bin("matvec", "Wd", "VQ", "V") \/ Bin("matvec", "Tl", "V", "VQ") \/ Bin("inner", "VQ", "VQ", "S")
+
 Finish ==
   /\ ~done /\ stack = <<"S">> /\ hasv
   /\ done' = TRUE
@@ -124,12 +136,13 @@ Next ==
   \/ \E t \in BinMMM : Bin(t, "M", "M", "M")
   \/ \E t \in BinMMS : Bin(t, "M", "M", "S")
   \/ \E t \in BinVVM : Bin(t, "V", "V", "M")
+  \/ Rect
   \/ Finish
 
 Spec == Init /\ [][Next]_vars
 
 \* every reachable stack is well-typed and bounded; a finished program is a single scalar containing v
-TypeOK == /\ \A i \in 1..Len(stack) : stack[i] \in {"S", "D", "V", "M"}
+TypeOK == /\ \A i \in 1..Len(stack) : stack[i] \in {"S", "D", "V", "M", "Tl", "Wd", "Q", "VQ"}
           /\ Len(stack) <= MaxStack /\ Len(prog) <= MaxTok
           /\ done => (stack = <<"S">> /\ hasv)
           /\ Len(dg) = Len(stack)
